@@ -66,6 +66,11 @@ CLAIMED = {
              'evaluates to its mean-square value at the peak; mscohere(x, c*x): numerator and denominator of the returned quotient are the same polynomial.',
              note='REAL arithmetic with a 1e-11 coefficient tolerance (FFT table rounding inside); mscohere in [0,1] for arbitrary pairs not decided. One open known finding (complex welch labels) is reported as KNOWN-FINDING.',
              tech='symbolic execution of LLVM IR + exact polynomial extraction; z3 for non-negativity (QF_NRA) and ground comparisons; native replay against a 50-digit periodogram'),
+ 'C20': dict(design='4/C20', text='Gain computers of Compressor and Limiter with threshold, knee width and input sample symbolic (ratio enumerated; the level 20*log10(|x|+eps) is an uninterpreted function value = arbitrary real): '
+             'on every path z3 decides gain == documented piecewise characteristic, gain <= 0 dB, ceiling, and across every pair of regions that the output level is monotone and 1-Lipschitz in the input level (continuity at both knee edges); '
+             'one processing step from an arbitrary smoothed-gain state (private state set by the harness): between old state and target, <= 0 dB, equal to the static curve for zero attack/release, outputs are pow(10,g/20) and x*gain; '
+             'NoiseGate one step from an arbitrary (gain, hold counter) state: gain in [0,1], hold semantics; Agc: on every path the applied log-gain is <= log(10^(max_gain/20)).',
+             note='Absolute slack 1e-9 for rounded coefficients; axioms pow10(g/20) in (0,1] for g <= 0 and exp monotone translate the dB/log-domain invariants; Agc convergence and time-constant calibration not decided.'),
 }
 ALL = [json.loads(l)['id'] for l in open(os.path.join(V, 'properties.jsonl'))]
 NA_REASON = {}
